@@ -252,6 +252,30 @@ def term(e, ctx):
             return (e["variant"],) + tuple(fields)
         return ("ctor", nm + "::" + e["variant"]) + tuple(fields)
     if k == "namedconst":
+        d = e.get("def") or ""
+        ty = short_ty(e.get("ty", ""))
+        bits = e.get("bits")
+        if bits is not None and not d.startswith(("core::", "std::", "alloc::", "rust_decimal::", "num_complex::", "num_traits::")):
+            # a constant defined in the crate is its value (naming a literal changes nothing)
+            try:
+                b = int(bits)
+                if ty in ("i8", "i16", "i32", "i64", "i128", "isize"):
+                    w = {"i8": 8, "i16": 16, "i32": 32, "i64": 64, "i128": 128, "isize": 64}[ty]
+                    if b >= 1 << (w - 1):
+                        b -= 1 << w
+                    return ("lit", str(b), ty)
+                if ty in ("u8", "u16", "u32", "u64", "u128", "usize"):
+                    return ("lit", str(b), ty)
+                if ty == "f64":
+                    import struct
+                    return ("lit", repr(struct.unpack("<d", struct.pack("<Q", b))[0]), ty)
+                if ty == "f32":
+                    import struct
+                    return ("lit", repr(struct.unpack("<f", struct.pack("<I", b))[0]), ty)
+                if ty == "bool":
+                    return ("lit", "true" if b else "false", "bool")
+            except (ValueError, KeyError, OverflowError):
+                pass
         return ("const", short_path(e["def"]), e.get("bits"))
     if k == "fnref":
         return ("fnref", fn_name(e["fn"]))
@@ -526,6 +550,9 @@ def _flip_not(t):
     """(if (not c) A B) ==> (if c B A)   (two-armed conditionals only)"""
     while _is(t, "if") and len(t) == 4 and t[3] != ("unit",) and _is(t[1], "un") and t[1][1] == "not" and len(t[1]) == 4:
         t = ("if", t[1][3], t[3], t[2])
+    # a != b is exactly !(a == b) (also for NaN)
+    if _is(t, "if") and len(t) == 4 and t[3] != ("unit",) and _is(t[1], "op") and len(t[1]) == 5 and t[1][1] == "ne":
+        t = ("if", ("op", "eq") + t[1][2:], t[3], t[2])
     return t
 
 
@@ -540,6 +567,17 @@ def normalise(t):
         return ("Err",)
     if h == "errmsg":
         return ("errmsg",)
+    if h == "call" and t[1] == "bool::then" and len(t) == 4 and _is(t[3], "lambda") and len(t[3]) == 3 and not t[3][1]:
+        # c.then(|| x)  ==  if c { Some(x) } else { None }
+        return normalise(("if", t[2], ("Some", t[3][2]), ("None",)))
+    if h == "call" and t[1] == "bool::then_some" and len(t) == 4:
+        return normalise(("if", t[2], ("Some", t[3]), ("None",)))
+    if h == "call" and t[1] in ("ops::Range::contains", "ops::Range::<Idx>::contains") and len(t) == 4 and _is(t[2], "range") and len(t[2]) == 3:
+        lo, hi = t[2][1], t[2][2]
+        ty = lo[2] if _is(lo, "lit") and len(lo) == 3 else (hi[2] if _is(hi, "lit") and len(hi) == 3 else None)
+        if ty in ("f64", "f32", "i64", "i32", "u32", "usize", "u64"):
+            # (a..b).contains(&x)  ==  a <= x && x < b
+            return ("op", "and", "bool", ("op", "ge", ty, t[3], lo), ("op", "lt", ty, t[3], hi))
     if h == "call":
         name = t[1]
         if isinstance(name, str) and len(t) == 3:
@@ -611,6 +649,37 @@ def normalise(t):
         t = ("match", t[1], (t[2][0], normalise(("if", t[2][1], t[2][2], t[3][1]))), t[3])
     if h == "match" and len(t) == 4 and len(t[2]) == 2 and len(t[3]) == 2 and t[3][0] == "_" and _is(t[2][0], "pvar") and t[2][0][1] == "Option::Some":
         t = ("match", t[1], t[2], (("pvar", "Option::None"), t[3][1]))
+    if h == "match" and len(t) >= 3 and isinstance(t[1], tuple) and t[1]:
+        sc_ = t[1]
+        # case of a known constructor
+        if sc_[0] in ("Some", "None", "Ok", "Err") or (sc_[0] == "ctor" and isinstance(sc_[1], str)):
+            cname = {"Some": "Option::Some", "None": "Option::None", "Ok": "Result::Ok", "Err": "Result::Err"}.get(sc_[0], sc_[1] if sc_[0] == "ctor" else None)
+            fields = sc_[1:] if sc_[0] != "ctor" else sc_[2:]
+            for a in t[2:]:
+                if len(a) != 2:
+                    break
+                p_ = a[0]
+                if p_ == "_" or _is(p_, "bind"):
+                    break
+                if _is(p_, "pvar") and p_[1] == cname and len(p_) - 2 == len(fields) and all(x == "_" or _is(x, "bind") for x in p_[2:]):
+                    env = {x[1]: f_ for x, f_ in zip(p_[2:], fields) if _is(x, "bind")}
+
+                    def sv(x, env=env):
+                        if isinstance(x, tuple):
+                            if len(x) == 2 and x[0] == "var" and x[1] in env:
+                                return env[x[1]]
+                            return tuple(sv(y) for y in x)
+                        return x
+                    return normalise(sv(a[1]))
+                if _is(p_, "pvar") and p_[1] != cname and p_[1].split("::")[0] == (cname or "").split("::")[0]:
+                    continue
+                break
+        # match (if c {A} else {B}) {arms}  ==  if c {match A {arms}} else {match B {arms}}   (small arms only)
+        if sc_[0] == "if" and len(sc_) == 4 and term_size(t) <= 120 and all(len(a) == 2 for a in t[2:]):
+            ca = sc_[2][0] if isinstance(sc_[2], tuple) and sc_[2] else None
+            cb = sc_[3][0] if isinstance(sc_[3], tuple) and sc_[3] else None
+            if ca in ("Some", "None", "Ok", "Err", "if") and cb in ("Some", "None", "Ok", "Err", "if"):
+                return normalise(("if", sc_[1], ("match", sc_[2]) + t[2:], ("match", sc_[3]) + t[2:]))
     if h == "match" and len(t) == 4:
         # match X { Some(v) => v, None => return Err }  ==> (try (lift X))
         a, b = t[2], t[3]
